@@ -289,3 +289,116 @@ Proof.
   apply (Permutation_in (QueryCore.QE (TAtom false 3))) in H; [|cbn; tauto].
   cbn in H. repeat (destruct H as [H|H]; [discriminate H|]). exact H.
 Qed.
+
+(** * The DML core (DmlCore.v, DmlCoreInv.v): the INSERT / UPDATE / DELETE tree the model parser [parse_dml_core]
+    returns, printed, has the content tokens of the consumed input.  [keep]: ANY predicate that keeps only
+    identifier / number / string tokens (the DML keywords, being words, may be among them).  The printers of the three
+    statements write their clauses in the order the parsers read them (RETURNING before ORDER BY / LIMIT in DELETE,
+    FROM after SET in UPDATE), drop LIMIT ALL, a FROM the dialect does not read a table after, and the [()] of an
+    empty column list: none of this is content; the only reordering is the one inherited from the query core (LIMIT
+    before OFFSET in a query).  A DML keyword the parser has re-read as a name ([site]) is printed as the keyword
+    again: the statements are about the token lists with these demoted keywords restored ([map unplain]; the
+    identity on every lexed text, [C05_dml_content_plain]).  Exclusion: an unquoted ESCAPE word. *)
+Require SqlV.DmlCore SqlV.DmlCoreProofs SqlV.DmlCoreInv.
+Require SqlVGen.DmlTables.
+
+Lemma C05_dml_tables_ok : forall d, In d DmlTables.all_mdialects -> DmlCoreProofs.mdialect_ok d = true.
+Proof.
+  intros d H. cbn [DmlTables.all_mdialects In] in H.
+  repeat (destruct H as [H|H]; [subst d; vm_compute; reflexivity|]). destruct H.
+Qed.
+
+Theorem C05_dml_content : forall d (keep : QueryCore.qtok -> bool) fuel ts s rest,
+  In d DmlTables.all_mdialects ->
+  (forall t, keep t = true -> QueryCoreInv.qlit t = true) ->
+  DmlCore.parse_dml_core d fuel ts = Ok (s, rest) -> DmlCoreInv.mword_escape s = false ->
+  Permutation (filter keep (map DmlCore.unplain ts)) (filter keep (DmlCore.mtoks s ++ map DmlCore.unplain rest)).
+Proof.
+  intros d keep fuel ts s rest Hin Hlit.
+  exact (DmlCoreInv.dml_content d (C05_dml_tables_ok d Hin) keep Hlit fuel ts s rest).
+Qed.
+Print Assumptions C05_dml_content.
+
+Theorem C05_dml_content_ordered : forall d (keep : QueryCore.qtok -> bool) fuel ts s rest,
+  In d DmlTables.all_mdialects ->
+  (forall t, keep t = true -> QueryCoreInv.qlit t = true) ->
+  DmlCore.parse_dml_core d fuel ts = Ok (s, rest) -> DmlCoreInv.mcontent_ordered s = true ->
+  filter keep (map DmlCore.unplain ts) = filter keep (DmlCore.mtoks s ++ map DmlCore.unplain rest).
+Proof.
+  intros d keep fuel ts s rest Hin Hlit.
+  exact (DmlCoreInv.dml_content_ordered d (C05_dml_tables_ok d Hin) keep Hlit fuel ts s rest).
+Qed.
+Print Assumptions C05_dml_content_ordered.
+
+(** on token lists without word numbers of demoted keywords: the statement about the tokens themselves *)
+Theorem C05_dml_content_plain : forall d (keep : QueryCore.qtok -> bool) fuel ts s rest,
+  In d DmlTables.all_mdialects ->
+  (forall t, keep t = true -> QueryCoreInv.qlit t = true) ->
+  DmlCore.parse_dml_core d fuel ts = Ok (s, rest) -> DmlCoreInv.mword_escape s = false ->
+  forallb DmlCoreProofs.np ts = true -> forallb DmlCoreProofs.np rest = true ->
+  Permutation (filter keep ts) (filter keep (DmlCore.mtoks s ++ rest)).
+Proof.
+  intros d keep fuel ts s rest Hin Hlit.
+  exact (DmlCoreInv.dml_content_plain d (C05_dml_tables_ok d Hin) keep Hlit fuel ts s rest).
+Qed.
+Print Assumptions C05_dml_content_plain.
+
+(** a whole accepted input ([parse_dml_top] rejects the word numbers reserved for demoted keywords) *)
+Theorem C05_dml_content_top : forall d (keep : QueryCore.qtok -> bool) ts s,
+  In d DmlTables.all_mdialects ->
+  (forall t, keep t = true -> QueryCoreInv.qlit t = true) ->
+  DmlCore.parse_dml_top d ts = Ok (s, []) -> DmlCoreInv.mword_escape s = false ->
+  Permutation (filter keep ts) (filter keep (DmlCore.mtoks s)).
+Proof.
+  intros d keep ts s Hin Hlit. exact (DmlCoreInv.dml_content_top d (C05_dml_tables_ok d Hin) keep Hlit ts s).
+Qed.
+Print Assumptions C05_dml_content_top.
+
+Theorem C05_dml_content_ordered_top : forall d (keep : QueryCore.qtok -> bool) ts s,
+  In d DmlTables.all_mdialects ->
+  (forall t, keep t = true -> QueryCoreInv.qlit t = true) ->
+  DmlCore.parse_dml_top d ts = Ok (s, []) -> DmlCoreInv.mcontent_ordered s = true ->
+  filter keep ts = filter keep (DmlCore.mtoks s).
+Proof.
+  intros d keep ts s Hin Hlit. exact (DmlCoreInv.dml_content_ordered_top d (C05_dml_tables_ok d Hin) keep Hlit ts s).
+Qed.
+Print Assumptions C05_dml_content_ordered_top.
+
+(** the order is not kept when the source query of an INSERT has both clauses:
+    [INSERT INTO x1 SELECT x2 OFFSET 1 LIMIT 2] prints [.. LIMIT 2 OFFSET 1] *)
+Example C05_dml_content_order_refuted :
+  let x := fun n => QueryCore.QE (TAtom false n) in
+  let ts := [DmlCore.kw DmlCore.DInsert; DmlCore.kw DmlCore.DInto; x 1; QueryCore.QK QueryCore.KSelect; x 2;
+             QueryCore.QK QueryCore.KOffset; x 5001; QueryCore.QK QueryCore.KLimit; x 5002] in
+  match DmlCore.parse_dml_core DmlTables.md_generic 10 ts with
+  | Ok (s, []) => DmlCoreInv.mcontent_ordered s = false /\ DmlCoreInv.mword_escape s = false /\
+                  filter QueryCoreInv.qlit ts = [DmlCore.kw DmlCore.DInsert; DmlCore.kw DmlCore.DInto; x 1; x 2; x 5001; x 5002] /\
+                  filter QueryCoreInv.qlit (DmlCore.mtoks s) = [DmlCore.kw DmlCore.DInsert; DmlCore.kw DmlCore.DInto; x 1; x 2; x 5002; x 5001]
+  | _ => False
+  end.
+Proof. vm_compute. repeat split; reflexivity. Qed.
+
+(** the exclusion: [DELETE FROM x1 WHERE x2 LIKE x3 ESCAPE x4] prints [ESCAPE 'x4'] - the word becomes a string *)
+Example C05_dml_escape_word_refuted :
+  let x := fun n => QueryCore.QE (TAtom false n) in
+  let ts := [DmlCore.kw DmlCore.DDelete; QueryCore.QE (TKw KFrom); x 1; QueryCore.QK QueryCore.KWhere; x 2;
+             QueryCore.QE (TKw KLike); x 3; QueryCore.QE (TKw KEscape); x 4] in
+  match DmlCore.parse_dml_core DmlTables.md_generic 10 ts with
+  | Ok (s, []) => DmlCoreInv.mword_escape s = true /\
+                  filter QueryCoreInv.qlit ts = [DmlCore.kw DmlCore.DDelete; x 1; x 2; x 3; x 4] /\
+                  filter QueryCoreInv.qlit (DmlCore.mtoks s) = [DmlCore.kw DmlCore.DDelete; x 1; x 2; x 3; QueryCore.QE (TAtom true 100004)]
+  | _ => False
+  end.
+Proof. vm_compute. repeat split; reflexivity. Qed.
+
+(** [map unplain] cannot be dropped for token lists outside the lexer's range: the word number [DPLAIN_BASE] (= the
+    keyword INSERT read as a name) as a table name prints as the keyword *)
+Example C05_dml_demoted_word_refuted :
+  let ts := [DmlCore.kw DmlCore.DDelete; QueryCore.QE (TKw KFrom); QueryCore.QE (TAtom false DmlCore.DPLAIN_BASE)] in
+  match DmlCore.parse_dml_core DmlTables.md_generic 10 ts with
+  | Ok (s, []) => DmlCoreInv.mword_escape s = false /\ forallb DmlCoreProofs.np ts = false /\
+                  filter QueryCoreInv.qlit ts = [DmlCore.kw DmlCore.DDelete; QueryCore.QE (TAtom false DmlCore.DPLAIN_BASE)] /\
+                  filter QueryCoreInv.qlit (DmlCore.mtoks s) = [DmlCore.kw DmlCore.DDelete; DmlCore.kw DmlCore.DInsert]
+  | _ => False
+  end.
+Proof. vm_compute. repeat split; reflexivity. Qed.
